@@ -41,12 +41,7 @@ N_PROGRAMS = {"quick": int(__import__("os").environ.get("C01_N", 1400)), "thorou
 PER_PROGRAM_TIMEOUT = 60
 
 
-class _Timeout(Exception):
-    pass
-
-
-def _alarm(signum: int, frame: Any) -> None:
-    raise _Timeout()
+_Timeout = common.Timeout
 
 
 def plan(tier: str, seed: int) -> list[dict[str, Any]]:
@@ -345,29 +340,31 @@ def check_case(case: dict[str, Any], col: common.Collector) -> None:
         col.histo("op", k)
     col.histo("profile", spec.get("profile", "?"))
     h = common.stable_hash(spec)
-    old = signal.signal(signal.SIGALRM, _alarm)
-    signal.alarm(PER_PROGRAM_TIMEOUT)
     tmp = common.Collector()
     try:
-        base = run_program(spec, tmp)
-        rng = common.rng_for(spec["vseed"], "variant")
-        if base is not None and rng.random() < 0.3:
-            tmp.count("mon.order_variants")
-            run_program(spec, tmp, variant=True, vset0=0)
+        with common.time_limit(PER_PROGRAM_TIMEOUT):
+            base = run_program(spec, tmp)
+            rng = common.rng_for(spec["vseed"], "variant")
+            if base is not None and rng.random() < 0.3:
+                tmp.count("mon.order_variants")
+                run_program(spec, tmp, variant=True, vset0=0)
         for k, v in tmp.counters.items():
             col.count(k, v)
         for t, d in tmp.hist.items():
             for k, v in d.items():
                 col.histo(t, k, v)
         if tmp.violations:
-            signal.alarm(4 * PER_PROGRAM_TIMEOUT)
-            finalize_violations(spec, tmp, col)
-    except _Timeout:
+            with common.time_limit(4 * PER_PROGRAM_TIMEOUT):
+                finalize_violations(spec, tmp, col)
+    except common.Timeout:
         col.count("program_timeouts")
         col.histo("timeouts", spec.get("profile", "?"))
-    finally:
-        signal.alarm(0)
-        signal.signal(signal.SIGALRM, old)
+        # violations found before the watchdog fired are still reported (unshrunk)
+        if not col.violations or True:
+            have = {v["key"].split(":unshrunk")[0] for v in col.violations}
+            for v in tmp.violations:
+                if not any(h_.startswith(v["key"]) for h_ in have):
+                    col.violation(v["key"] + ":unshrunk", v["what"], v["witness"])
     col.case(h, ps.is_nontrivial(spec),
              {"profile": spec.get("profile"), "ops": ps.node_kinds(spec),
               "inputs": [(i["kind"], i["shape"], i["dtype"]) for i in spec["inputs"]],
